@@ -530,6 +530,20 @@ def worker(rec, shard, nshards, thorough, seed):
                 rec.outcome("excel-sheet")
             finally:
                 shutil.rmtree(tmpdir, ignore_errors=True)
+    # F8c a tag column asked for under a name the sheet does not have (here: another letter case): reported, not ignored
+    for header, asked in (("HED", "hed"), ("hed", "HED"), ("Hed", "HED"), ("HED", "tags")):
+        tsv = f"{header}\tother\nZzqnonsense\tx\nRed\ty\n"
+        rec.n("evaluations")
+        rec.n("distinct_nontrivial")
+        try:
+            sheet = SpreadsheetInput(io.StringIO(tsv), file_type=".tsv", tag_columns=[asked], name="s.tsv")
+            codes_ = [i["code"] for i in sheet.validate(env.schema, extra_def_dicts=env.dd)]
+        except Exception as e:
+            rec.violation(f"C07:raises:{type(e).__name__}:missing-tag-column", file=tsv, asked=asked, error=repr(e)[:300])
+            continue
+        if "HED_MISSING_REQUIRED_COLUMN" not in codes_:
+            rec.violation("C07:tag-column-that-is-not-in-the-sheet-not-reported", header=header, asked=asked, codes=codes_)
+        rec.outcome("missing-tag-column")
     # F9 the same two cells in swapped columns: which column holds the failing cell does not change what the row reports
     k9 = ["tag", "unknown", "reptag", "badgroup", "onset", "offset", "ext"]
     # (two temporal markers in one row are excluded: their order in the row is the order of the history, C10)
